@@ -27,7 +27,7 @@ from .values import Atom, Ref, SBool, SFloat, SInt, SNum, Tmpl, Unsupported, to_
 class IndSpec:
     def __init__(self, cls, params=None, lets=None, inv=None, inputs=None, helpers=None, prior=None,
                  variants=None, props=None, window=None, ctor=None, extra_pre=None, post=None,
-                 name_kwargs=None, managed=None, hints=None, notes=None, subs=None, general_pre=None):
+                 name_kwargs=None, managed=None, hints=None, notes=None, subs=None, general_pre=None, lemmas=None):
         self.cls = cls  # qualname of the class
         self.params = params or {}  # name -> (type, constraint src | None)
         self.lets = lets or {}
@@ -47,6 +47,11 @@ class IndSpec:
         # case split on a parameter: {param: clause} is assumed in every variant that leaves the parameter symbolic; the
         # remaining values are covered by variants that fix it ("const:<int>"); together they cover extra_pre
         self.general_pre = general_pre or {}
+        # arithmetic lemmas (label -> clause over j = i): the clause with every non-arithmetic subterm (readings, sums)
+        # replaced by a fresh variable must be VALID in real arithmetic - that is an obligation of its own ("lemma") - and
+        # the instance over the actual terms is then added to the hypotheses of the step (nonlinear identities that the
+        # solver does not find by itself, e.g. the running-variance update)
+        self.lemmas = lemmas or {}
         self.subs = subs or {}  # spec expr -> {role: prior|helper, ghost: {param: src}, parent: spec expr}
 
 
@@ -137,6 +142,31 @@ def build_indicator_task(spec, variant):
     return builder
 
 
+_ARITH_KINDS = None
+
+
+def abstract_arith(t):
+    """the formula with every maximal subterm that is not built from real / integer arithmetic, comparisons, ite and boolean
+    connectives replaced by a fresh constant of its sort (the same subterm -> the same constant)"""
+    keep = {z3.Z3_OP_ADD, z3.Z3_OP_SUB, z3.Z3_OP_MUL, z3.Z3_OP_DIV, z3.Z3_OP_UMINUS, z3.Z3_OP_LE, z3.Z3_OP_LT, z3.Z3_OP_GE, z3.Z3_OP_GT,
+            z3.Z3_OP_EQ, z3.Z3_OP_DISTINCT, z3.Z3_OP_ITE, z3.Z3_OP_AND, z3.Z3_OP_OR, z3.Z3_OP_NOT, z3.Z3_OP_IMPLIES, z3.Z3_OP_TO_REAL,
+            z3.Z3_OP_ANUM, z3.Z3_OP_TRUE, z3.Z3_OP_FALSE, z3.Z3_OP_IFF if hasattr(z3, "Z3_OP_IFF") else z3.Z3_OP_EQ}
+    memo = {}
+
+    def go(e):
+        k = e.get_id()
+        if k in memo:
+            return memo[k]
+        if z3.is_app(e) and e.decl().kind() in keep and (e.num_args() > 0 or z3.is_rational_value(e) or z3.is_int_value(e) or z3.is_true(e) or z3.is_false(e)):
+            r = e.decl()(*[go(c) for c in e.children()]) if e.num_args() else e
+        else:
+            r = z3.Const(f"abs!{len(memo)}", e.sort())
+        memo[k] = r
+        return r
+
+    return go(t)
+
+
 SPEC_REGISTRY = {}  # class qualname -> IndSpec
 
 
@@ -184,6 +214,8 @@ class Bound:
         for label, tup in self.spec.inv.items():
             if len(tup) > 2 and tup[2].get("defer"):
                 continue  # written down, not yet discharged: decided by the bounded stand-in only
+            if len(tup) > 2 and getattr(self, "mode", None) in tup[2].get("defer_in", ()):
+                continue  # not discharged in this mode (e.g. the recompute step): neither proved nor assumed there
             if assume_only and len(tup) > 2 and not tup[2].get("assume", True):
                 continue
             yield label, tup[0], (tup[1] if len(tup) > 1 else None)
@@ -370,6 +402,7 @@ def run_indicator_task(source, contracts, loops, spec, variant, natives=None, ti
             if not ctx.feasible(st):
                 continue
             ctx.bindings[obj.oid] = top
+            top.mode = mode
             from .replay import indicator_extractor
 
             ctx.extract = indicator_extractor(spec, variant, env, mode)
@@ -455,12 +488,23 @@ def run_indicator_task(source, contracts, loops, spec, variant, natives=None, ti
                 if sig[0] not in ("next", "continue"):
                     raise Unsupported(f"signal {sig[0]} out of the driver loop body")
                 ser1 = st1.heap[env["c"].oid]
+                lemma_for = {}
+                for label, (src, clauses) in spec.lemmas.items():
+                    inst = top.clause(st1, src, i, old)
+                    ctx.oblige(State(), "lemma", label, abstract_arith(inst), loop)
+                    for cl in clauses:  # the instance is a hypothesis of the named clauses only (keeps the other queries linear)
+                        lemma_for.setdefault(cl, []).append(inst)
                 for b in bounds:
                     if b.role == "prior":
                         continue
                     pre = "" if b is top else f"helper[{_short(b.N)}]:"
                     for label, src, props in b.inv_items(assume_only=(b is not top)):
-                        oblige_spec(ex, st1, "inv-preserve", pre + label, b.clause_value(st1, src, i, old, tight=(b is top)), loop, props=props or None)
+                        st_o = st1
+                        if b is top and label in lemma_for:
+                            st_o = st1.fork()
+                            for inst in lemma_for[label]:
+                                st_o.assume(inst)
+                        oblige_spec(ex, st_o, "inv-preserve", pre + label, b.clause_value(st_o, src, i, old, tight=(b is top)), loop, props=props or None)
                     if b.role == "helper":
                         ex.ctx.oblige(st1, "inv-preserve", pre + "inputs-well-formed", b.contiguity(st1, i), loop)
                         jf = z3.Int(vals_fresh("jf"))
